@@ -326,6 +326,11 @@ def render_workspace(nodes, ws, trace=None, r=None, file_contents=None):
         if r is not None:
             nds = r.shuffle(nds)
         targets, aliases = [], []
+        # package-level default_platforms (a function of the graph): the platforms of the package's first restricted target; a
+        # target with exactly those platforms inherits them every other time, EVERY other target spells its own list -- an
+        # unrestricted one as the explicit empty list, which must not fall back to the default
+        own = [nodes[i] for i in sorted(idx_of[id(x)] for x in nds) if nodes[i]["kind"] != "a" and nodes[i]["plats"]]
+        default_plats = list(own[0]["plats"]) if own else None
         for nd in nds:
             if nd["kind"] == "a":
                 aliases.append({"name": nd["name"], "actual": label_of(nodes[nd["deps"][0]])})
@@ -343,21 +348,32 @@ def render_workspace(nodes, ws, trace=None, r=None, file_contents=None):
                 t["dependencies"] = [label_of(nodes[d]) for d in nd["deps"]]
             if nd["tags"]:
                 t["tags"] = nd["tags"]
-            if nd["plats"]:
-                t["platforms"] = nd["plats"]
+            if default_plats is None:
+                if nd["plats"]:
+                    t["platforms"] = nd["plats"]
+            elif not (list(nd["plats"]) == default_plats and idx_of[id(nd)] % 2 == 0):
+                t["platforms"] = list(nd["plats"])
             if nd["bin"]:
                 t["bin_output"] = "bin_%s" % nd["name"]
             if nd["inputs"]:
                 t["inputs"] = list(spelled_inputs(nd))
             targets.append(t)
         with open(os.path.join(ws, pkg, "BUILD.json"), "w") as f:
-            json.dump({"targets": targets, "aliases": aliases}, f, indent=1)
+            doc = {"targets": targets, "aliases": aliases}
+            if default_plats is not None:
+                doc["default_platforms"] = default_plats
+            json.dump(doc, f, indent=1)
     for nd in nodes:
         for inp in nd["inputs"]:
             path = os.path.join(ws, nd["pkg"], inp)
             os.makedirs(os.path.dirname(path), exist_ok=True)
-            if not os.path.exists(path):
-                with open(path, "w") as f:
+            if not os.path.lexists(path):
+                real = path
+                if sum(map(ord, inp)) % 3 == 0:
+                    # one input in three is a symbolic link to a file that is nobody's input: the input is the LINK's path
+                    real = path + ".real"
+                    os.symlink(os.path.basename(real), path)
+                with open(real, "w") as f:
                     f.write((file_contents or {}).get(path, "v0\n"))
     with open(os.path.join(ws, "grog.toml"), "w") as f:
         f.write("")
